@@ -411,9 +411,25 @@ class World(object):
         if initial_data is not SENTINEL:
             if is_pulled:
                 assert src_sim.outputs is not None
-                src_sim.outputs.setdefault(
-                    -int(time_shifted), {}
-                ).setdefault(src.eid, {})[src_attr] = initial_data
+                init_time = -int(time_shifted)
+                entry = src_sim.outputs.setdefault(init_time, {})
+                entry.setdefault(src.eid, {})[src_attr] = initial_data
+                # A cache entry is the complete record of the
+                # (persistent) outputs at its time. Connections with
+                # different time shifts put their initial data at
+                # different times: the value of a longer shift is still
+                # the current one at the times of the shorter shifts,
+                # unless those bring a value of their own.
+                for other_time in sorted(src_sim.outputs):
+                    if other_time > init_time:
+                        src_sim.outputs[other_time].setdefault(
+                            src.eid, {}
+                        ).setdefault(src_attr, initial_data)
+                earlier = [t for t in src_sim.outputs if t < init_time]
+                for other_time in sorted(earlier, reverse=True):
+                    for eid, attrs in src_sim.outputs[other_time].items():
+                        for attr, val in attrs.items():
+                            entry.setdefault(eid, {}).setdefault(attr, val)
             else:
                 dest_sim.persistent_inputs.setdefault(
                     dest.eid, {}
